@@ -8,10 +8,15 @@
 //!                 read-back of samples.stack → stackTable.frame → frameTable.address/func → funcTable.resource/name →
 //!                 resourceTable.lib → libs[..].name.
 //!
+//! `mode threads`: the same API, but the case creates processes and threads itself (`add_process`, `add_thread`), frames
+//!                 are addressed by *thread*, through `handle_for_frame_with_address` or `handle_for_native_symbol` +
+//!                 `handle_for_frame_with_address_and_symbol`, with all six `FrameAddress` variants; handles that were
+//!                 never handed out (excluded point) are minted from a second, larger `Profile`.
+//!
 //! Line protocol: see lean/SamplyModel/Iface/C11.lean.
 use fxprof_processed_profile::{
-    CategoryHandle, CpuDelta, FrameAddress, FrameFlags, LibMappings, LibraryHandle, LibraryInfo, Profile,
-    ReferenceTimestamp, SamplingInterval, ThreadHandle, Timestamp,
+    CategoryHandle, CpuDelta, FrameAddress, FrameFlags, FrameSymbolInfo, LibMappings, LibraryHandle, LibraryInfo,
+    ProcessHandle, Profile, ReferenceTimestamp, SamplingInterval, SourceLocation, Symbol, ThreadHandle, Timestamp,
 };
 use std::collections::{BTreeMap, BTreeSet};
 use std::panic::{catch_unwind, AssertUnwindSafe};
@@ -49,6 +54,8 @@ fn table_dump(m: &LibMappings<u32>) -> String {
 fn exec_table(ops: &[String], stats: &mut Stats) -> Vec<String> {
     let mut out = Vec::new();
     let mut m: LibMappings<u32> = LibMappings::new();
+    // the eviction statistic formats the whole table twice per add: only on cases of ordinary length
+    let count_evictions = ops.len() <= 400;
     for l in ops {
         let w: Vec<&str> = l.split_whitespace().collect();
         let num = |i: usize| -> Option<u64> { w.get(i).and_then(|s| s.parse::<u64>().ok()) };
@@ -60,13 +67,15 @@ fn exec_table(ops: &[String], stats: &mut Stats) -> Vec<String> {
                 if rel >= U32LIM || v >= U32LIM {
                     return vec!["bad-op".into()];
                 }
-                let before = table_len(&m);
+                let before = if count_evictions { table_len(&m) } else { 0 };
                 let r = catch_unwind(AssertUnwindSafe(|| m.add_mapping(s, e, rel as u32, v as u32)));
                 match r {
                     Ok(()) => {
-                        let after = table_len(&m);
-                        let evicted = before + 1 - after;
-                        stats.bump(&format!("t_add_evicts_{}", evicted.min(3)));
+                        if count_evictions {
+                            let after = table_len(&m);
+                            let evicted = before + 1 - after;
+                            stats.bump(&format!("t_add_evicts_{}", evicted.min(3)));
+                        }
                         if e <= s {
                             stats.bump("t_add_empty_range_accepted");
                         }
@@ -97,7 +106,8 @@ fn exec_table(ops: &[String], stats: &mut Stats) -> Vec<String> {
                 out.push("ok".into());
             }
             Some("dump") => {
-                stats.bump(&format!("t_dump_entries_{}", table_len(&m).min(5)));
+                let n = table_len(&m);
+                stats.bump(&format!("t_dump_entries_{}", if n >= 200 { 200 } else if n >= 50 { 50 } else { n.min(5) }));
                 out.push(table_dump(&m));
             }
             Some("probe") => {
@@ -343,6 +353,433 @@ fn exec_profile(ops: &[String], stats: &mut Stats) -> Vec<String> {
 }
 
 // ------------------------------------------------------------------------------------------------
+// executor: threads mode
+
+const IDX_LIM: usize = 64;
+
+/// the index inside a handle, from its derived `Debug` form (`ProcessHandle(3)`, `ThreadHandle(7)`)
+fn handle_index<T: std::fmt::Debug>(h: &T) -> Option<usize> {
+    let d = format!("{h:?}");
+    let digits: String = d.chars().filter(|c| c.is_ascii_digit()).collect();
+    digits.parse().ok()
+}
+
+/// a second profile with `IDX_LIM` processes and threads: the only way to obtain a handle with a given index that the
+/// profile under test has not handed out (the excluded point "handle of another profile")
+struct Donor {
+    procs: Vec<ProcessHandle>,
+    threads: Vec<ThreadHandle>,
+}
+
+fn make_donor() -> Donor {
+    let mut d = Profile::new("donor", ReferenceTimestamp::from_millis_since_unix_epoch(0.0), SamplingInterval::from_millis(1));
+    let mut procs = Vec::new();
+    let mut threads = Vec::new();
+    for k in 0..IDX_LIM {
+        let ph = d.add_process("d", k as u32, Timestamp::from_nanos_since_reference(0));
+        procs.push(ph);
+    }
+    for k in 0..IDX_LIM {
+        threads.push(d.add_thread(procs[0], k as u32, Timestamp::from_nanos_since_reference(0), false));
+    }
+    Donor { procs, threads }
+}
+
+enum ThFrame {
+    Panic,
+    Orphan,
+    Sample(usize, usize), // (thread creation index, sample index in that thread)
+}
+
+fn read_frame(t: &serde_json::Value, libs: &serde_json::Value, i: usize) -> Option<String> {
+    let stack = t["samples"]["stack"].get(i)?.as_u64()? as usize;
+    let frame = t["stackTable"]["frame"].get(stack)?.as_u64()? as usize;
+    if !t["stackTable"]["prefix"].get(stack)?.is_null() {
+        return Some("frame err:prefix".into());
+    }
+    let addr = t["frameTable"]["address"].get(frame)?.as_i64()?;
+    let func = t["frameTable"]["func"].get(frame)?.as_u64()? as usize;
+    let res = t["funcTable"]["resource"].get(func)?.as_i64()?;
+    if res >= 0 {
+        if addr < 0 {
+            return Some("frame err:lib-without-address".into());
+        }
+        let lib = t["resourceTable"]["lib"].get(res as usize)?.as_u64()? as usize;
+        let name = libs.get(lib)?["name"].as_str()?;
+        let v = name.strip_prefix("lib")?.parse::<u64>().ok()?;
+        Some(format!("frame lib {v} {addr}"))
+    } else {
+        if addr >= 0 {
+            return Some("frame err:address-without-lib".into());
+        }
+        let name_idx = t["funcTable"]["name"].get(func)?.as_u64()? as usize;
+        let name = t["stringArray"].get(name_idx)?.as_str()?;
+        let a = u64::from_str_radix(name.strip_prefix("0x")?, 16).ok()?;
+        Some(format!("frame unknown {a}"))
+    }
+}
+
+/// the text between the `{` at `open` and its matching `}` (strings in the output never contain braces: all names
+/// are generated by this file)
+fn brace_body(d: &str, open: usize) -> Option<&str> {
+    let mut depth = 0usize;
+    for (i, c) in d[open..].char_indices() {
+        match c {
+            '{' => depth += 1,
+            '}' => {
+                depth -= 1;
+                if depth == 0 {
+                    return Some(&d[open + 1..open + i]);
+                }
+            }
+            _ => {}
+        }
+    }
+    None
+}
+
+/// `tables k <ents> p0 <ents> ..` from the derived `Debug` output of `Profile`: every `LibMappings { .. }` in it is
+/// the kernel table (the one preceded by `kernel_libs: `) or the `libs` of one process, in process order; per entry
+/// the four integers of `Mapping { .. }` (the last one is the index inside the `LibraryHandle`)
+fn profile_tables(profile: &Profile, n_procs: usize, lib_value: &BTreeMap<usize, u64>) -> String {
+    let d = format!("{profile:?}");
+    let mut kernel: Option<String> = None;
+    let mut procs: Vec<String> = Vec::new();
+    let mut from = 0usize;
+    while let Some(pos) = d[from..].find("LibMappings {") {
+        let at = from + pos;
+        let open = at + "LibMappings ".len();
+        let Some(body) = brace_body(&d, open) else { return "tables err:debug-format".into() };
+        let mut ents = String::new();
+        for chunk in body.split("Mapping {").skip(1) {
+            let inner = chunk.split('}').next().unwrap_or("");
+            let nums: Vec<&str> = inner.split(|c: char| !c.is_ascii_digit()).filter(|s| !s.is_empty()).collect();
+            if nums.len() != 4 {
+                return "tables err:debug-format".into();
+            }
+            let Some(v) = nums[3].parse::<usize>().ok().and_then(|h| lib_value.get(&h)) else {
+                return "tables err:unknown-lib".into();
+            };
+            ents.push_str(&format!(" {}:{}:{}:{v}", nums[0], nums[1], nums[2]));
+        }
+        if d[..at].ends_with("kernel_libs: ") {
+            if kernel.is_some() {
+                return "tables err:debug-format".into();
+            }
+            kernel = Some(ents);
+        } else {
+            procs.push(ents);
+        }
+        from = open + body.len();
+    }
+    let Some(kernel) = kernel else { return "tables err:debug-format".into() };
+    if procs.len() != n_procs {
+        return "tables err:debug-format".into();
+    }
+    let mut line = format!("tables k{kernel}");
+    for (i, e) in procs.iter().enumerate() {
+        line.push_str(&format!(" p{i}{e}"));
+    }
+    line
+}
+
+fn exec_threads(ops: &[String], stats: &mut Stats) -> Vec<String> {
+    let mut p = Prof {
+        profile: Profile::new("c11t", ReferenceTimestamp::from_millis_since_unix_epoch(0.0), SamplingInterval::from_millis(1)),
+        threads: Vec::new(),
+        procs: Vec::new(),
+        libs: BTreeMap::new(),
+    };
+    let mut donor: Option<Donor> = None;
+    // handles the profile under test handed out, by the index they carry
+    let mut own_procs: BTreeMap<usize, ProcessHandle> = BTreeMap::new();
+    let mut own_threads: BTreeMap<usize, ThreadHandle> = BTreeMap::new();
+    let mut thread_owner: BTreeMap<usize, usize> = BTreeMap::new();
+    let mut proc_attempts = 0usize;
+    let mut thread_attempts = 0usize; // every `add_thread` call pushes a thread, also one that panics afterwards
+    let mut orphans: BTreeSet<usize> = BTreeSet::new();
+    let mut sample_counts: BTreeMap<usize, usize> = BTreeMap::new();
+    let mut lines: Vec<Result<String, ThFrame>> = Vec::new();
+    let mut sym_lib: Option<LibraryHandle> = None;
+    for (k, l) in ops.iter().enumerate() {
+        let w: Vec<&str> = l.split_whitespace().collect();
+        let num = |i: usize| -> Option<u64> { w.get(i).and_then(|s| s.parse::<u64>().ok()) };
+        let idx = |i: usize| -> Option<usize> { num(i).filter(|q| (*q as usize) < IDX_LIM).map(|q| q as usize) };
+        macro_rules! proc_handle {
+            ($q:expr) => {{
+                match own_procs.get(&$q) {
+                    Some(h) => *h,
+                    None => {
+                        stats.bump("th_foreign_process_handle");
+                        donor.get_or_insert_with(make_donor).procs[$q]
+                    }
+                }
+            }};
+        }
+        macro_rules! thread_handle {
+            ($q:expr) => {{
+                match own_threads.get(&$q) {
+                    Some(h) => *h,
+                    None => {
+                        stats.bump("th_foreign_thread_handle");
+                        donor.get_or_insert_with(make_donor).threads[$q]
+                    }
+                }
+            }};
+        }
+        let okline = |r: std::thread::Result<()>, stats: &mut Stats, what: &str| -> Result<String, ThFrame> {
+            match r {
+                Ok(()) => Ok("ok".to_string()),
+                Err(_) => {
+                    stats.bump(&format!("th_{what}_panic"));
+                    Ok("panic".to_string())
+                }
+            }
+        };
+        match w.first().copied() {
+            Some("proc") => {
+                if w.len() != 1 {
+                    return vec!["bad-op".into()];
+                }
+                let ph = p.profile.add_process(
+                    &format!("proc{proc_attempts}"),
+                    100 + proc_attempts as u32,
+                    Timestamp::from_nanos_since_reference(proc_attempts as u64),
+                );
+                proc_attempts += 1;
+                stats.bump("th_proc");
+                match handle_index(&ph) {
+                    Some(i) => {
+                        own_procs.insert(i, ph);
+                        lines.push(Ok(format!("h {i}")));
+                    }
+                    None => lines.push(Ok("err:handle-debug".into())),
+                }
+            }
+            Some("thread") => {
+                let Some(q) = idx(1) else { return vec!["bad-op".into()] };
+                if w.len() != 2 {
+                    return vec!["bad-op".into()];
+                }
+                let ph = proc_handle!(q);
+                let a = thread_attempts;
+                thread_attempts += 1;
+                let r = catch_unwind(AssertUnwindSafe(|| {
+                    p.profile.add_thread(ph, 1000 + a as u32, Timestamp::from_nanos_since_reference(a as u64), a % 2 == 0)
+                }));
+                stats.bump("th_thread");
+                match r {
+                    Ok(th) => match handle_index(&th) {
+                        Some(i) => {
+                            if i != q {
+                                stats.bump("th_thread_index_differs_from_process_index");
+                            }
+                            own_threads.insert(i, th);
+                            thread_owner.insert(i, q);
+                            lines.push(Ok(format!("h {i}")));
+                        }
+                        None => lines.push(Ok("err:handle-debug".into())),
+                    },
+                    Err(_) => {
+                        stats.bump("th_thread_panic");
+                        orphans.insert(a);
+                        lines.push(Ok("panic".into()));
+                    }
+                }
+            }
+            Some("kadd") => {
+                let (Some(s), Some(e), Some(rel), Some(v)) = (num(1), num(2), num(3), num(4)) else {
+                    return vec!["bad-op".into()];
+                };
+                if rel >= U32LIM || w.len() != 5 {
+                    return vec!["bad-op".into()];
+                }
+                let lib = p.lib(v);
+                let r = catch_unwind(AssertUnwindSafe(|| p.profile.add_kernel_lib_mapping(lib, s, e, rel as u32)));
+                stats.bump("th_kadd");
+                lines.push(okline(r, stats, "kadd"));
+            }
+            Some("kremove") => {
+                let Some(s) = num(1) else { return vec!["bad-op".into()] };
+                if w.len() != 2 {
+                    return vec!["bad-op".into()];
+                }
+                p.profile.remove_kernel_lib_mapping(s);
+                stats.bump("th_kremove");
+                lines.push(Ok("ok".into()));
+            }
+            Some("padd") => {
+                let (Some(q), Some(s), Some(e), Some(rel), Some(v)) = (idx(1), num(2), num(3), num(4), num(5)) else {
+                    return vec!["bad-op".into()];
+                };
+                if rel >= U32LIM || w.len() != 6 {
+                    return vec!["bad-op".into()];
+                }
+                let lib = p.lib(v);
+                let ph = proc_handle!(q);
+                let r = catch_unwind(AssertUnwindSafe(|| p.profile.add_lib_mapping(ph, lib, s, e, rel as u32)));
+                stats.bump("th_padd");
+                lines.push(okline(r, stats, "padd"));
+            }
+            Some("premove") => {
+                let (Some(q), Some(s)) = (idx(1), num(2)) else { return vec!["bad-op".into()] };
+                if w.len() != 3 {
+                    return vec!["bad-op".into()];
+                }
+                let ph = proc_handle!(q);
+                let r = catch_unwind(AssertUnwindSafe(|| p.profile.remove_lib_mapping(ph, s)));
+                stats.bump("th_premove");
+                lines.push(okline(r, stats, "premove"));
+            }
+            Some("pclear") => {
+                let Some(q) = idx(1) else { return vec!["bad-op".into()] };
+                if w.len() != 2 {
+                    return vec!["bad-op".into()];
+                }
+                let ph = proc_handle!(q);
+                let r = catch_unwind(AssertUnwindSafe(|| p.profile.clear_process_lib_mappings(ph)));
+                stats.bump("th_pclear");
+                lines.push(okline(r, stats, "pclear"));
+            }
+            Some("pdump") => {
+                if w.len() != 1 {
+                    return vec!["bad-op".into()];
+                }
+                let mut lib_value: BTreeMap<usize, u64> = BTreeMap::new();
+                for (v, h) in &p.libs {
+                    if let Some(i) = handle_index(h) {
+                        lib_value.insert(i, *v);
+                    }
+                }
+                stats.bump("th_pdump");
+                lines.push(Ok(profile_tables(&p.profile, proc_attempts, &lib_value)));
+            }
+            Some(kw @ ("frame" | "fsym")) => {
+                let with_sym = kw == "fsym";
+                let Some(t) = idx(1) else { return vec!["bad-op".into()] };
+                let (nt, rest) = if with_sym {
+                    let Some(nt) = idx(2) else { return vec!["bad-op".into()] };
+                    (nt, &w[3..])
+                } else {
+                    (t, &w[2..])
+                };
+                let arg = |i: usize| -> Option<u64> { rest.get(i).and_then(|s| s.parse::<u64>().ok()) };
+                let fa = match (rest.first().copied(), rest.len()) {
+                    (Some("ip"), 2) => arg(1).map(FrameAddress::InstructionPointer),
+                    (Some("ra"), 2) => arg(1).map(FrameAddress::ReturnAddress),
+                    (Some("ara"), 2) => arg(1).map(FrameAddress::AdjustedReturnAddress),
+                    (Some(kind @ ("rip" | "rra" | "rara")), 3) => match (arg(1), arg(2)) {
+                        (Some(v), Some(rel)) if rel < U32LIM => {
+                            let lib = p.lib(v);
+                            Some(match kind {
+                                "rip" => FrameAddress::RelativeAddressFromInstructionPointer(lib, rel as u32),
+                                "rra" => FrameAddress::RelativeAddressFromReturnAddress(lib, rel as u32),
+                                _ => FrameAddress::RelativeAddressFromAdjustedReturnAddress(lib, rel as u32),
+                            })
+                        }
+                        _ => None,
+                    },
+                    _ => None,
+                };
+                let Some(fa) = fa else { return vec!["bad-op".into()] };
+                stats.bump(&format!("th_{kw}_{}", rest[0]));
+                let th = thread_handle!(t);
+                if let Some(owner) = thread_owner.get(&t) {
+                    if *owner != t {
+                        stats.bump("th_frame_on_thread_whose_index_differs_from_its_process");
+                    }
+                }
+                let r = if with_sym {
+                    let nth = thread_handle!(nt);
+                    if nt != t {
+                        stats.bump("th_fsym_symbol_of_other_thread");
+                    }
+                    let sl = match sym_lib {
+                        Some(l) => l,
+                        None => {
+                            let l = p.lib(999_999);
+                            sym_lib = Some(l);
+                            l
+                        }
+                    };
+                    catch_unwind(AssertUnwindSafe(|| {
+                        let ns = p.profile.handle_for_native_symbol(
+                            nth,
+                            sl,
+                            &Symbol { address: 16, size: Some(16), name: "c11sym".to_string() },
+                        );
+                        let info = FrameSymbolInfo { name: None, native_symbol: ns, source_location: SourceLocation::default() };
+                        p.profile.handle_for_frame_with_address_and_symbol(th, fa, info, 0, CategoryHandle::OTHER, FrameFlags::empty())
+                    }))
+                } else {
+                    catch_unwind(AssertUnwindSafe(|| {
+                        p.profile.handle_for_frame_with_address(th, fa, CategoryHandle::OTHER, FrameFlags::empty())
+                    }))
+                };
+                match r {
+                    Err(_) => {
+                        stats.bump("th_frame_panic");
+                        lines.push(Err(ThFrame::Panic));
+                    }
+                    Ok(fh) => {
+                        if orphans.contains(&t) {
+                            stats.bump("th_frame_on_orphan_thread");
+                            lines.push(Err(ThFrame::Orphan));
+                        } else {
+                            let st = p.profile.handle_for_stack(th, fh, None);
+                            p.profile.add_sample(
+                                th,
+                                Timestamp::from_nanos_since_reference(1_000_000 + 1000 * k as u64),
+                                Some(st),
+                                CpuDelta::ZERO,
+                                1,
+                            );
+                            let c = sample_counts.entry(t).or_insert(0);
+                            lines.push(Err(ThFrame::Sample(t, *c)));
+                            *c += 1;
+                        }
+                    }
+                }
+            }
+            _ => return vec!["bad-op".into()],
+        }
+    }
+    let json = match serde_json::to_value(&p.profile) {
+        Ok(j) => j,
+        Err(_) => return vec!["err:serialize".into()],
+    };
+    let libs = &json["libs"];
+    let mut by_thread: BTreeMap<usize, &serde_json::Value> = BTreeMap::new();
+    if let Some(ths) = json["threads"].as_array() {
+        for t in ths {
+            if let Some(tid) = t["tid"].as_str().and_then(|s| s.parse::<usize>().ok()) {
+                if tid >= 1000 {
+                    by_thread.insert(tid - 1000, t);
+                }
+            }
+        }
+    }
+    let mut out = Vec::new();
+    for l in lines {
+        match l {
+            Ok(s) => out.push(s),
+            Err(ThFrame::Panic) => out.push("frame panic".into()),
+            Err(ThFrame::Orphan) => out.push("frame orphan".into()),
+            Err(ThFrame::Sample(t, i)) => {
+                let line = by_thread.get(&t).and_then(|tj| read_frame(tj, libs, i)).unwrap_or_else(|| "frame err:readback".into());
+                if line.starts_with("frame lib") {
+                    stats.bump("th_frame_in_lib");
+                } else if line.starts_with("frame unknown") {
+                    stats.bump("th_frame_unknown");
+                }
+                out.push(line);
+            }
+        }
+    }
+    out
+}
+
+// ------------------------------------------------------------------------------------------------
 // generators
 
 fn probe_line(addrs: &BTreeSet<u64>) -> String {
@@ -529,6 +966,44 @@ fn boundary_cases() -> Vec<Case> {
     p("profile-guard", &["kadd 4096 8192 4294963201 1", "padd 0 4096 8192 0 2", "frame 0 ip 8190", "frame 0 ip 8191", "frame 0 ra 8192", "frame 0 ra 8191",
         "padd 1 0 8589934592 5 3", "frame 1 ip 4294967296", "frame 1 ip 100"]);
     p("profile-empty-range", &["padd 0 100 200 0 1", "padd 0 300 250 0 2", "frame 0 ip 150", "kadd 500 400 0 3", "frame 0 ip 450", "padd 0 150 150 0 4", "frame 0 ip 150"]);
+    let mut th = |name: &str, body: &[&str]| {
+        let mut ops = vec!["mode threads".to_string()];
+        ops.extend(body.iter().map(|s| s.to_string()));
+        v.push(Case { name: name.to_string(), ops });
+    };
+    // thread index never equals the process index; two threads of one process; both frame functions
+    th("thread-hop", &[
+        "proc", "proc", "proc", "thread 2", "thread 0", "thread 0", "thread 1",
+        "padd 0 1000 2000 0 1", "padd 1 1000 1200 7 3", "padd 2 1000 3000 100 4", "kadd 1500 1600 16 2",
+        "frame 0 ip 1100", "frame 1 ip 1100", "frame 2 ip 1100", "frame 3 ip 1100",
+        "fsym 0 0 ip 1100", "fsym 1 1 ip 1100", "fsym 2 2 ip 1100", "fsym 3 3 ip 1100",
+        "frame 0 ip 1550", "fsym 3 3 ra 1601", "frame 3 ra 1201", "fsym 1 1 ra 1201", "frame 0 ra 1000", "fsym 0 0 ara 1000",
+        "premove 0 1000", "frame 1 ip 1100", "fsym 2 2 ip 1100", "frame 0 ip 1100", "pclear 2", "fsym 0 0 ip 1100", "frame 0 ip 1550",
+        "kremove 1500", "fsym 0 0 ip 1550", "frame 3 ip 1550", "pdump",
+    ]);
+    // processes and threads created after mappings exist: a new process starts empty; its index equals a thread index
+    th("late-creation", &[
+        "proc", "padd 0 100 200 0 1", "thread 0", "frame 0 ip 150", "proc", "thread 1", "thread 0", "frame 1 ip 150", "fsym 2 2 ip 150",
+        "padd 1 100 300 50 2", "frame 1 ip 150", "frame 1 ip 250", "frame 0 ip 250", "fsym 2 2 ip 250", "proc", "thread 2", "fsym 3 3 ip 150",
+        "kadd 140 160 0 3", "frame 3 ip 150", "frame 3 ip 139", "frame 1 ip 139", "frame 0 ra 140", "fsym 1 1 ra 161", "pdump",
+    ]);
+    // the RelativeAddressFrom* variants never consult a table (also for a library that is mapped elsewhere)
+    th("relative-variants", &[
+        "proc", "proc", "thread 1", "thread 0", "padd 0 100 200 0 1", "kadd 300 400 0 2",
+        "frame 0 rip 1 50", "frame 0 rra 1 50", "frame 0 rara 1 50", "frame 1 rra 2 0", "frame 1 rra 2 1", "fsym 1 1 rip 7 4294967295",
+        "fsym 0 0 rra 7 4294967295", "frame 1 rip 1 50", "fsym 1 1 rara 3 0",
+    ]);
+    // same address asked through both functions and two threads of one process right after kernel changes
+    th("same-address-two-threads", &[
+        "proc", "proc", "thread 1", "thread 1", "thread 0", "padd 1 100 200 0 1", "frame 0 ip 150", "fsym 1 1 ip 150", "kadd 120 180 0 2",
+        "frame 1 ip 150", "fsym 0 0 ip 150", "frame 2 ip 150", "kremove 120", "fsym 1 1 ip 150", "frame 0 ip 150", "frame 2 ip 150",
+    ]);
+    // excluded point: handles the profile never handed out, a native symbol of another thread
+    th("foreign-handles", &[
+        "proc", "thread 0", "padd 0 100 200 0 1", "frame 0 ip 150", "padd 1 100 200 0 2", "premove 3 100", "pclear 2", "frame 0 ip 150",
+        "frame 1 ip 150", "fsym 0 1 ip 150", "thread 0", "fsym 0 1 ip 150", "fsym 1 0 ip 150", "fsym 1 1 ip 150",
+        "thread 1", "frame 2 ip 150", "proc", "frame 2 ip 150", "padd 1 100 200 5 3", "frame 2 ip 150", "thread 1", "frame 3 ip 150", "pdump",
+    ]);
     v
 }
 
@@ -763,13 +1238,296 @@ fn gen_profile(rng: &mut Rng, fam: Family) -> Vec<String> {
         }
     }
     // closing sweep: every boundary, every process, ip and ra
-    let b: Vec<u64> = bounds.iter().copied().collect();
+    // (boundaries of dead mappings anywhere in the address range included: all of them when there are at most 80,
+    // otherwise the lowest 40 and 40 random others)
+    let all: Vec<u64> = bounds.iter().copied().collect();
+    let b: Vec<u64> = if all.len() <= 80 {
+        all
+    } else {
+        let mut sel: BTreeSet<u64> = all.iter().take(40).copied().collect();
+        for _ in 0..40 {
+            sel.insert(*rng.pick(&all));
+        }
+        sel.into_iter().collect()
+    };
     for q in 0..NPROC {
-        for &a in b.iter().take(40) {
+        for &a in b.iter() {
             ops.push(format!("frame {q} ip {a}"));
             ops.push(format!("frame {q} ra {a}"));
         }
     }
+    ops
+}
+
+/// `mode threads` from a `mode profile` history: the three logical processes become process handles in a shuffled
+/// order among 3..5 created processes, every logical process gets 1..3 threads created in a shuffled order (so a
+/// thread's index is not its process's index), more processes / threads are created in the middle of the history,
+/// every frame goes to a random thread of its process through one of the two frame functions, some frames use the
+/// `RelativeAddressFrom*` variants; the excluded family also passes handles that were never handed out.
+fn gen_threads(rng: &mut Rng, fam: Family) -> Vec<String> {
+    let base = gen_profile(rng, fam);
+    let mut ops = vec!["mode threads".to_string()];
+    let n_proc = rng.range(3, 5) as usize;
+    let mut perm: Vec<usize> = (0..n_proc).collect();
+    rng.shuffle(&mut perm);
+    let mut owners: Vec<usize> = Vec::new();
+    for q in 0..n_proc {
+        for _ in 0..rng.range(if q < 3 { 1 } else { 0 }, 3) {
+            owners.push(q);
+        }
+    }
+    rng.shuffle(&mut owners);
+    if owners.iter().enumerate().all(|(i, q)| i == *q) {
+        owners.rotate_left(1);
+    }
+    let mut n_procs_now = 0usize;
+    let mut threads_of: Vec<Vec<usize>> = Vec::new();
+    let mut n_threads_now = 0usize;
+    // processes and threads interleaved: a thread can only be created once its process exists
+    let mut pending: Vec<usize> = owners.clone();
+    while n_procs_now < n_proc || !pending.is_empty() {
+        let can_thread = pending.first().map(|q| *q < n_procs_now).unwrap_or(false);
+        if n_procs_now < n_proc && (!can_thread || rng.chance(1, 2)) {
+            ops.push("proc".to_string());
+            threads_of.push(Vec::new());
+            n_procs_now += 1;
+        } else if can_thread {
+            let q = pending.remove(0);
+            ops.push(format!("thread {q}"));
+            threads_of[q].push(n_threads_now);
+            n_threads_now += 1;
+        }
+    }
+    let logical = |q: usize| -> usize { perm[q] };
+    let mut last_addr = 0u64;
+    for l in base.iter().skip(1) {
+        // creation in the middle of the history: a new process starts with an empty table whatever the others hold
+        if rng.chance(1, 40) && n_procs_now < 12 {
+            ops.push("proc".to_string());
+            threads_of.push(Vec::new());
+            n_procs_now += 1;
+        }
+        if rng.chance(1, 25) && n_threads_now < 40 {
+            let q = rng.below(n_procs_now as u64) as usize;
+            ops.push(format!("thread {q}"));
+            threads_of[q].push(n_threads_now);
+            n_threads_now += 1;
+        }
+        let w: Vec<&str> = l.split_whitespace().collect();
+        match w[0] {
+            "kadd" | "kremove" => ops.push(l.clone()),
+            "padd" | "premove" | "pclear" => {
+                let q: usize = w[1].parse().unwrap();
+                // mostly the translated process; sometimes any process (late ones and ones without threads too)
+                let target = if rng.chance(1, 8) { rng.below(n_procs_now as u64) as usize } else { logical(q) };
+                let mut line = format!("{} {target}", w[0]);
+                for x in &w[2..] {
+                    line.push(' ');
+                    line.push_str(x);
+                }
+                ops.push(line);
+            }
+            "frame" => {
+                let q: usize = w[1].parse().unwrap();
+                let mut target = logical(q);
+                if threads_of[target].is_empty() || rng.chance(1, 8) {
+                    let with: Vec<usize> = (0..n_procs_now).filter(|x| !threads_of[*x].is_empty()).collect();
+                    target = *rng.pick(&with);
+                }
+                let t = *rng.pick(&threads_of[target]);
+                last_addr = w[3].parse().unwrap_or(0);
+                let addr = if rng.chance(1, 25) {
+                    let rel = *rng.pick(&[0u64, 1, 2, 4096, U32LIM - 1]);
+                    format!("{} {} {rel}", rng.pick(&["rip", "rra", "rara"]), rng.below(6))
+                } else {
+                    format!("{} {}", w[2], w[3])
+                };
+                if rng.chance(2, 5) {
+                    ops.push(format!("fsym {t} {t} {addr}"));
+                } else {
+                    ops.push(format!("frame {t} {addr}"));
+                }
+            }
+            _ => ops.push(l.clone()),
+        }
+        if rng.chance(1, 30) {
+            ops.push("pdump".to_string());
+        }
+        if fam == Family::Excluded && rng.chance(1, 12) {
+            // handles of another profile
+            let bad_p = n_procs_now + rng.below(3) as usize;
+            let bad_t = n_threads_now + rng.below(3) as usize;
+            match rng.below(6) {
+                0 => ops.push(format!("padd {bad_p} {last_addr} {} 0 1", last_addr.saturating_add(10))),
+                1 => ops.push(format!("premove {bad_p} {last_addr}")),
+                2 => ops.push(format!("pclear {bad_p}")),
+                3 => ops.push(format!("frame {bad_t} ip {last_addr}")),
+                4 => {
+                    let t = rng.below(n_threads_now as u64) as usize;
+                    let other = if rng.chance(1, 2) { bad_t } else { (t + 1) % n_threads_now.max(1) };
+                    ops.push(format!("fsym {t} {other} ip {last_addr}"));
+                }
+                _ => {
+                    // the thread exists afterwards (pushed before the panic) but belongs to no process
+                    ops.push(format!("thread {bad_p}"));
+                    let t = n_threads_now;
+                    n_threads_now += 1;
+                    ops.push(format!("frame {t} ip {last_addr}"));
+                    if rng.chance(1, 2) {
+                        for _ in n_procs_now..=bad_p {
+                            ops.push("proc".to_string());
+                            threads_of.push(Vec::new());
+                            n_procs_now += 1;
+                        }
+                        ops.push(format!("frame {t} ip {last_addr}"));
+                    }
+                }
+            }
+        }
+    }
+    ops.push("pdump".to_string());
+    ops
+}
+
+/// every sequence of exactly `len` mapping calls as in `enum_profile`, on two processes whose threads are created in
+/// another order (thread 0 in process 1, threads 1 and 2 in process 0); frames through both frame functions
+fn enum_threads(len: usize, out: &mut Vec<Case>) {
+    let grid = [10u64, 20, 30];
+    let addrs: Vec<u64> = grid_probes(&grid).into_iter().collect();
+    let mut choices: Vec<String> = Vec::new();
+    for i in 0..3 {
+        for j in i + 1..3 {
+            choices.push(format!("kadd {} {}", grid[i], grid[j]));
+            choices.push(format!("padd 0 {} {}", grid[i], grid[j]));
+            choices.push(format!("padd 1 {} {}", grid[i], grid[j]));
+        }
+    }
+    for &g in &grid {
+        choices.push(format!("kremove {g}"));
+        choices.push(format!("premove 0 {g}"));
+    }
+    choices.push("pclear 0".to_string());
+    let n = choices.len();
+    let mut idx = vec![0usize; len];
+    loop {
+        let mut ops: Vec<String> =
+            ["mode threads", "proc", "proc", "thread 1", "thread 0", "thread 0"].iter().map(|s| s.to_string()).collect();
+        for (k, &c) in idx.iter().enumerate() {
+            let ch = &choices[c];
+            if ch.contains("add") {
+                ops.push(format!("{ch} {} {}", 100 * (k + 1), k + 1));
+            } else {
+                ops.push(ch.clone());
+            }
+            for &a in &addrs {
+                ops.push(format!("frame 0 ip {a}"));
+                ops.push(format!("fsym 1 1 ip {a}"));
+            }
+            ops.push("pdump".to_string());
+        }
+        for &a in &addrs {
+            ops.push(format!("fsym 0 0 ra {a}"));
+            ops.push(format!("frame 2 ra {a}"));
+            ops.push(format!("frame 1 ara {a}"));
+        }
+        ops.push("proc".to_string());
+        ops.push("thread 2".to_string());
+        ops.push("frame 3 ip 15".to_string());
+        ops.push("fsym 3 3 ra 20".to_string());
+        ops.push("pdump".to_string());
+        let name = format!("xt{len}-{}", idx.iter().map(|c| format!("{c:x}.")).collect::<String>());
+        out.push(Case { name, ops });
+        let mut k = 0;
+        loop {
+            if k == len {
+                return;
+            }
+            idx[k] += 1;
+            if idx[k] < n {
+                break;
+            }
+            idx[k] = 0;
+            k += 1;
+        }
+    }
+}
+
+/// JIT shape (lib_mappings.rs doc comment): 200..1000 live adjacent small mappings, then calls that swallow runs of
+/// them, remove single ones, re-add; probes at boundaries all over the table
+fn gen_table_jit(rng: &mut Rng) -> Vec<String> {
+    let n = rng.range(200, 1000);
+    let base = *rng.pick(&[0u64, 0x1000, 0x7fff_0000_0000, 0xffff_8000_0000_0000]);
+    let width = *rng.pick(&[1u64, 1, 2, 16]);
+    let gap_every = *rng.pick(&[0u64, 7, 64]); // 0: all adjacent; otherwise a one-unit hole after every `gap_every` mappings
+    let mut ops = vec!["mode table".to_string()];
+    let mut starts: Vec<u64> = Vec::new();
+    let mut x = base;
+    let mut order: Vec<u64> = Vec::new();
+    for i in 0..n {
+        order.push(x);
+        starts.push(x);
+        x += width;
+        if gap_every != 0 && (i + 1) % gap_every == 0 {
+            x += width;
+        }
+    }
+    let end = x;
+    // ascending (JIT bump allocation), descending, or shuffled insertion order
+    match rng.below(3) {
+        0 => {}
+        1 => order.reverse(),
+        _ => rng.shuffle(&mut order),
+    }
+    for (k, s) in order.iter().enumerate() {
+        ops.push(format!("add {s} {} {} {}", s + width, (s - base) % 4096, k + 1));
+    }
+    let probe_some = |rng: &mut Rng, ops: &mut Vec<String>, extra: &[u64]| {
+        let mut set: BTreeSet<u64> = extra.iter().copied().collect();
+        for _ in 0..40 {
+            let s = *rng.pick(&starts);
+            set.insert(s);
+            set.insert(s.saturating_sub(1));
+            set.insert(s + width - 1);
+            set.insert(s + width);
+        }
+        set.insert(base);
+        set.insert(end - 1);
+        set.insert(end);
+        ops.push(probe_line(&set));
+    };
+    probe_some(rng, &mut ops, &[]);
+    ops.push("dump".to_string());
+    let n_more = rng.range(10, 40);
+    for k in 0..n_more {
+        let i = rng.below(n) as usize;
+        let s = starts[i];
+        match rng.below(6) {
+            0 | 1 => {
+                // swallow a run of up to 130 mappings, starting at / inside / just before one
+                let run = *rng.pick(&[1u64, 2, 8, 63, 64, 65, 130]);
+                let s2 = if width > 1 && rng.chance(1, 2) { s + 1 } else { s };
+                let e2 = (s + run * width).min(end + 5);
+                ops.push(format!("add {s2} {e2} 5 {}", 100_000 + k));
+                probe_some(rng, &mut ops, &[s2.saturating_sub(1), s2, e2 - 1, e2, s]);
+            }
+            2 | 3 => {
+                ops.push(format!("remove {s}"));
+                probe_some(rng, &mut ops, &[s.saturating_sub(1), s, s + width - 1, s + width]);
+            }
+            4 => {
+                ops.push(format!("add {s} {} 9 {}", s + width, 200_000 + k));
+                probe_some(rng, &mut ops, &[s.saturating_sub(1), s, s + width - 1, s + width]);
+            }
+            _ => {
+                ops.push(format!("remove {}", s + width)); // usually the next start; in a hole: nothing
+                probe_some(rng, &mut ops, &[s + width]);
+            }
+        }
+        if k % 8 == 7 {
+            ops.push("dump".to_string());
+        }
+    }
+    ops.push("dump".to_string());
     ops
 }
 
@@ -780,7 +1538,7 @@ impl Prop for C11 {
     fn case_count(&self, tier: Tier) -> u64 {
         match tier {
             Tier::Quick => 4000,
-            Tier::Thorough => 60000,
+            Tier::Thorough => 50000,
         }
     }
     fn fixed_cases(&self, tier: Tier) -> Vec<Case> {
@@ -796,6 +1554,9 @@ impl Prop for C11 {
                 for len in 0..=2 {
                     enum_profile(len, &mut v);
                 }
+                for len in 0..=2 {
+                    enum_threads(len, &mut v);
+                }
             }
             Tier::Thorough => {
                 for len in 0..=4 {
@@ -805,11 +1566,14 @@ impl Prop for C11 {
                 for len in 0..=3 {
                     enum_profile(len, &mut v);
                 }
+                for len in 0..=3 {
+                    enum_threads(len, &mut v);
+                }
             }
         }
         v
     }
-    fn generate(&self, rng: &mut Rng, _tier: Tier, _index: u64) -> Vec<String> {
+    fn generate(&self, rng: &mut Rng, tier: Tier, _index: u64) -> Vec<String> {
         let fam = match rng.below(20) {
             0..=10 => Family::Grid,
             11..=12 => Family::Max,
@@ -817,10 +1581,19 @@ impl Prop for C11 {
             16..=17 => Family::Excluded,
             _ => Family::Long,
         };
-        if rng.chance(3, 5) {
-            gen_table(rng, fam)
-        } else {
-            gen_profile(rng, fam)
+        // the JIT-shaped tables are ~100 times as expensive to judge as an ordinary case: ~25 of them in the quick
+        // tier, ~125 in the thorough tier
+        let jit_den = match tier {
+            Tier::Quick => 160,
+            Tier::Thorough => 400,
+        };
+        if rng.chance(1, jit_den) {
+            return gen_table_jit(rng);
+        }
+        match rng.below(40) {
+            0..=20 => gen_table(rng, fam),
+            21..=26 => gen_profile(rng, fam),
+            _ => gen_threads(rng, fam),
         }
     }
     fn execute(&self, ops: &[String], stats: &mut Stats) -> Vec<String> {
@@ -832,6 +1605,10 @@ impl Prop for C11 {
             Some("mode profile") => {
                 stats.bump("mode_profile");
                 exec_profile(&ops[1..], stats)
+            }
+            Some("mode threads") => {
+                stats.bump("mode_threads");
+                exec_threads(&ops[1..], stats)
             }
             _ => vec!["bad-op".to_string()],
         }
